@@ -746,6 +746,13 @@ fn as_char<'de, 's, R: Read<'de> + ?Sized>(read: &R, value: u32) -> Result<char>
     }
 }
 
+/// Whether `value`, read from the digits of a variable-length escape, is a
+/// surrogate and the input ends right there. One more digit turns it into a
+/// scalar value, so the escape is incomplete, not invalid.
+fn surrogate_at_end<'de, R: Read<'de> + ?Sized>(read: &mut R, value: u32) -> Result<bool> {
+    Ok((0xD800..0xE000).contains(&value) && read.peek()?.is_none())
+}
+
 fn needs_escape(c: u8) -> bool {
     c == b'\\' || c == b'"'
 }
@@ -889,6 +896,7 @@ where
                 Ok(ElispEscape::Unibyte)
             }
         }
+        None if surrogate_at_end(read, n)? => error(read, ErrorCode::EofWhileParsingString),
         None => error(read, ErrorCode::InvalidUnicodeCodePoint),
     }
 }
@@ -959,7 +967,13 @@ fn parse_elisp_escape<'de, R: Read<'de>>(
             if next_or_eof(read)? != b'U' || next_or_eof(read)? != b'+' {
                 return error(read, ErrorCode::InvalidEscape);
             }
-            let escape = parse_elisp_uni_char_escape(read, scratch, decode_elisp_hex_escape)?;
+            let escape = parse_elisp_uni_char_escape(read, scratch, |read| {
+                let n = decode_elisp_hex_escape(read)?;
+                if surrogate_at_end(read, n)? {
+                    return error(read, ErrorCode::EofWhileParsingString);
+                }
+                Ok(n)
+            })?;
             if next_or_eof(read)? != b'}' {
                 return error(read, ErrorCode::InvalidEscape);
             }
@@ -1138,6 +1152,14 @@ fn parse_elisp_char<'de, R: Read<'de> + ?Sized>(
     }
 }
 
+/// The character denoted by a hexadecimal or octal character escape.
+fn as_escaped_char<'de, R: Read<'de> + ?Sized>(read: &mut R, value: u32) -> Result<char> {
+    if surrogate_at_end(read, value)? {
+        return error(read, ErrorCode::EofWhileParsingCharacterConstant);
+    }
+    as_char(read, value)
+}
+
 fn decode_elisp_char_escape<'de, R: Read<'de> + ?Sized>(
     read: &mut R,
     scratch: &mut Vec<u8>,
@@ -1193,11 +1215,11 @@ fn decode_elisp_char_escape<'de, R: Read<'de> + ?Sized>(
         }
         b'x' => {
             // Hexadecimal escape, allows arbitrary number of hex digits.
-            decode_elisp_hex_escape(read).and_then(|n| as_char(read, n))
+            decode_elisp_hex_escape(read).and_then(|n| as_escaped_char(read, n))
         }
         b'0' | b'1' | b'2' | b'3' | b'4' | b'5' | b'6' | b'7' => {
             // Octal escape, allows arbitrary number of octale digits.
-            decode_elisp_octal_escape(read, ch).and_then(|n| as_char(read, n))
+            decode_elisp_octal_escape(read, ch).and_then(|n| as_escaped_char(read, n))
         }
         next => {
             if next > 0x7F {
